@@ -47,10 +47,11 @@ Definition rec_with_master (me : host) (m : mgr_mem) (stuck_at : Z) (st : option
   g <- gtid_executed 60 master ;;
   match snd g with Some _ => Ret (stuck_at, m) | None =>
   w <- is_waiting_ack 67 me ;;
-  let stuck := match snd w with Some _ => false | None => fst w end in
+  match snd w with Some _ => Ret (stuck_at, m) | None =>      (* cannot tell whether commits are stuck: nothing is decided *)
+  let stuck := fst w in
   clk <- (if stuck then t <- now_ 73 ;; Ret (if stuck_at =? 0 then t else stuck_at) else Ret 0) ;;
   rec_final me m master st (fst g) stuck clk
-  end.
+  end end.
 
 (* returns the new MasterStuckAt clock (0 = unset) *)
 Definition check_recovery (me : host) (m : mgr_mem) (stuck_at : Z) : prog (Z * mgr_mem) :=
